@@ -674,14 +674,23 @@ func opImport(h *Hist) {
 		case 1:
 			tree = []any{[]any{[]any{map[string]any{"k": poison}}}}
 		}
-		p, _ := h.call(func() {
-			if isObj {
-				at.NewObjectFrom(map[string]any{"a": 1, "t": tree})
-			} else {
-				at.NewListFrom(tree)
-			}
-		})
-		h.tracef("%s of a Go value holding an unsupported value: panicked=%v", name, p)
+		// a caller that retries a failing conversion: 1 .. 5000 attempts in a row (whatever one failed attempt leaks adds up)
+		attempts := 1
+		if h.d.Draw("poison-retries", 3) == 0 {
+			attempts = []int{3, 40, 300, 600, 1500, 5000}[h.d.Draw("poison-retries-n", 6)]
+			h.counters["probe:failing-import-retried"]++
+		}
+		p := false
+		for a := 0; a < attempts; a++ {
+			p, _ = h.call(func() {
+				if isObj {
+					at.NewObjectFrom(map[string]any{"a": 1, "t": tree})
+				} else {
+					at.NewListFrom(tree)
+				}
+			})
+		}
+		h.tracef("%s of a Go value holding an unsupported value, %d attempt(s): panicked=%v", name, attempts, p)
 		h.counters["probe:import-of-unsupported-value"]++
 		h.heapCheck()
 		return
